@@ -11,18 +11,32 @@ NEXT = "some(Iterator::next(var:Iter<Range>))"
 
 
 def roles_of(b):
-    o = [l for l in sorted(b.var_names) if b.var_names[l] == "original_range"]
-    a = [l for l in sorted(b.var_names) if b.var_names[l] == "adjustment_range"]
-    t = [l for l in sorted(b.var_names) if b.var_names[l] == "token" and b.locals[l]["mut"]]
-    if len(o) == 1 and len(a) == 1 and len(t) == 1:
-        return {o[0]: "O", a[0]: "A", t[0]: "T"}
-    return None
+    # O: the stretch variable that is re-assigned from the iterator (several definitions);
+    # A: the other stretch compared with it; T: the mutable RawToken being built
+    o = [l for l in sorted(b.var_names) if len(b.defs.get(l, [])) >= 2 and all(sh == NEXT for sh, _, _ in q.def_shapes(b, l, {}))]
+    t = [l for l in sorted(b.var_names) if b.locals[l]["mut"] and b.local_ty(l) == "types::RawToken"]
+    if len(o) != 1 or len(t) != 1:
+        return None
+    others = set()
+    for bi, tt in b.calls():
+        if q.nice(tt.get("callee")).startswith("PartialOrd::"):
+            for k in range(len(tt["args"])):
+                r = q.root_local(q.arg_expr(b, tt, k))
+                if r is not None and r != o[0]:
+                    others.add(r)
+    if len(others) != 1:
+        return None
+    return {o[0]: "O", others.pop(): "A", t[0]: "T"}
 
 
 def keys(ctx, rule):
     b = ctx.body(ADJ)
     fn = b.path
-    d = {b.var_names[l]: [sh for sh, _, _ in q.def_shapes(b, l, {})] for l in sorted(b.var_names) if b.var_names[l] in ("original_ranges", "adjustment_ranges")}
+    d = {}
+    for l in sorted(b.var_names):
+        for sh, _, _ in q.def_shapes(b, l, {}):
+            if sh.startswith("adjust_mappings::create_ranges("):
+                d.setdefault("original_ranges" if "closure#0" in sh else "adjustment_ranges", []).append(sh)
     ctx.check(d.get("original_ranges") == ["adjust_mappings::create_ranges(mem::take(arg1.tokens),closure:adjust_mappings::{closure#0})"], rule, fn, "original:ranges",
               "the original stretches are built from self's tokens (taken out of the map)", detail=str(d.get("original_ranges")))
     ctx.check(d.get("adjustment_ranges") == ["adjust_mappings::create_ranges(arg2.tokens,closure:adjust_mappings::{closure#1})"] or
